@@ -9,6 +9,7 @@ package dastard
 
 import (
 	"fmt"
+	"net"
 	"os"
 	"path/filepath"
 	"sync/atomic"
@@ -599,6 +600,120 @@ func errStrs(es []error) []string {
 	return out
 }
 
+// v10AbacoUDP (S9): the property's own example of a failed Start. A real AbacoSource with a real UDP receiver is
+// started while nothing is sending (the Start must fail and leave the source inactive); then the "hardware"
+// starts sending and the same source object, configured again, must start, deliver a block and stop.
+// Free-running (real sockets, the reader's 2 s sampling window): one execution, no schedule enumeration.
+func v10AbacoUDP(x *vexp.X, overlap bool) vexp.Result {
+	var shard, nshard int
+	fmt.Sscanf(os.Getenv("VERIF_SHARD"), "%d/%d", &shard, &nshard)
+	port := 18500 + shard
+	if overlap {
+		port += 100
+	}
+	hostport := fmt.Sprintf("127.0.0.1:%d", port)
+	bad := func(class, f string, a ...interface{}) vexp.Result {
+		return vexp.Result{Violation: "S9-abaco-udp: " + fmt.Sprintf(f, a...), Class: class, Nontrivial: true}
+	}
+	as, err := NewAbacoSource()
+	if err != nil {
+		panic("harness: NewAbacoSource: " + err.Error())
+	}
+	cfg := func() *AbacoSourceConfig {
+		return &AbacoSourceConfig{HostPortUDP: []string{hostport}, AbacoUnwrapOptions: AbacoUnwrapOptions{RescaleRaw: true, Unwrap: true, ResetAfter: 20000, PulseSign: 1}}
+	}
+	if err := as.Configure(cfg()); err != nil {
+		return bad("configure-error", "Configure with one UDP receiver on %s: %v", hostport, err)
+	}
+	src := &v17Abaco{AbacoSource: as, done: make(chan struct{}, 16)}
+	queued := make(chan func())
+	v17Ticks = make(chan time.Time)
+	stop := make(chan struct{})
+	defer close(stop)
+	go func() { // the reader's ticker (a seam in this build)
+		for {
+			select {
+			case v17Ticks <- time.Time{}:
+				time.Sleep(500 * time.Microsecond)
+			case <-stop:
+				return
+			}
+		}
+	}()
+	x.Steps = 4
+	l := &v03Layout{name: "c10udp", groups: []v03Group{{0, 2}}, frames: 2}
+	conn, err := net.Dial("udp", hostport)
+	if err != nil {
+		panic("harness: dial: " + err.Error())
+	}
+	defer conn.Close()
+	var mode int32 // 0: silent, 1: two channel groups that overlap (a configuration Sample rejects), 2: one proper group
+	go func() {
+		lo := &v03Layout{name: "c10udp-overlap", groups: []v03Group{{0, 2}, {1, 2}}, frames: 2}
+		for sn := v03Base; ; sn++ {
+			select {
+			case <-stop:
+				return
+			default:
+			}
+			switch atomic.LoadInt32(&mode) {
+			case 1:
+				conn.Write(v03Packet(lo, lo.groups[0], sn).Bytes())
+				conn.Write(v03Packet(lo, lo.groups[1], sn).Bytes())
+			case 2:
+				conn.Write(v03Packet(l, l.groups[0], sn).Bytes())
+			}
+			time.Sleep(100 * time.Microsecond)
+		}
+	}()
+	if overlap {
+		atomic.StoreInt32(&mode, 1)
+	}
+	err1 := Start(src, queued, 3, 6)
+	x.Logf("first Start (nothing is sending, or overlapping channel groups): err=%v", err1)
+	if err1 == nil {
+		// not demanded by the property, but then there is nothing to check
+		src.Stop()
+		return vexp.Result{Outcome: "first-start-succeeded-without-data"}
+	}
+	if st := as.GetState(); st != Inactive {
+		return bad("failed-start-not-inactive", "after the failed Start (%v) the source is in state %v, not Inactive", err1, st)
+	}
+	// the hardware starts sending properly: one group of two channels, a packet every 100 us
+	atomic.StoreInt32(&mode, 2)
+	if overlap {
+		time.Sleep(50 * time.Millisecond) // let the packets of the rejected layout drain from the socket
+	}
+	if err := as.Configure(cfg()); err != nil {
+		return bad("reconfigure-error", "Configure after the failed Start: %v", err)
+	}
+	err2 := Start(src, queued, 3, 6)
+	x.Logf("second Start (packets are flowing): err=%v", err2)
+	if err2 != nil {
+		return bad("restart-after-failed-start", "the first Start failed because nothing was sending (%v); with packets flowing, the same source configured again cannot be started: %v", err1, err2)
+	}
+	select {
+	case <-src.done:
+	case <-time.After(60 * time.Second):
+		return bad("no-block-after-start", "Start succeeded but no block was processed within 60 s")
+	}
+	stopped := make(chan error, 1)
+	go func() { stopped <- src.Stop() }()
+	select {
+	case err := <-stopped:
+		if err != nil {
+			return bad("stop-error", "Stop returned %v", err)
+		}
+	case <-time.After(60 * time.Second):
+		return bad("stop-does-not-return", "Stop has not returned after 60 s")
+	}
+	if st := as.GetState(); st != Inactive {
+		return bad("not-inactive", "after Stop the state is %v", st)
+	}
+	src.stopTickers()
+	return vexp.Result{Nontrivial: true, Outcome: "failed-start-then-start-ok"}
+}
+
 func TestVerifC10(t *testing.T) {
 	r := vexp.NewRunner("C10")
 	r.CrashTrace = true
@@ -609,7 +724,7 @@ func TestVerifC10(t *testing.T) {
 	if r.Thorough() {
 		pbCore, pbWide, pbDelay = 3, 2, 5
 	}
-	r.SetBound(fmt.Sprintf("all interleavings (all select alternatives) with at most %d preemptions for the core scenarios (Start + 2 concurrent Stop callers against the real CoreLoop and a scripted producer that runs normally / sends an error block / closes its channel) and at most %d for the wider ones (Start || Start, 1-2 blocks before the event, 3 Stop callers, writing active or paused, a request handed to the core loop while Stop is called, Start/Stop/Start histories incl. a first Start failing in Sample, PrepareRun or StartRun), each followed by a restart of the same source object; and the real AbacoSource (scripted packet producer, clock thread) and LanceroSource (scripted card, clock thread) and the real TriangleSource / SimPulseSource (timers behind a seam: ready three times per execution) under Start, a queued request and Stop; the request and Abaco scenarios are delay-bounded: at most %d deviations of any kind (thread choice or select alternative) from the canonical schedule", pbCore, pbWide, pbDelay))
+	r.SetBound(fmt.Sprintf("all interleavings (all select alternatives) with at most %d preemptions for the core scenarios (Start + 2 concurrent Stop callers against the real CoreLoop and a scripted producer that runs normally / sends an error block / closes its channel) and at most %d for the wider ones (Start || Start, 1-2 blocks before the event, 3 Stop callers, writing active or paused, a request handed to the core loop while Stop is called, Start/Stop/Start histories incl. a first Start failing in Sample, PrepareRun or StartRun), each followed by a restart of the same source object; and the real AbacoSource (scripted packet producer, clock thread) and LanceroSource (scripted card, clock thread) and the real TriangleSource / SimPulseSource (timers behind a seam: ready three times per execution) under Start, a queued request and Stop; one free-running history with a real UDP receiver (Start while nothing is sending, or while overlapping channel groups are being sent, fails; then the same source, configured again, starts once proper packets flow); the request and Abaco scenarios are delay-bounded: at most %d deviations of any kind (thread choice or select alternative) from the canonical schedule", pbCore, pbWide, pbDelay))
 	dir := filepath.Join(os.Getenv("TMPDIR"), "c10")
 	os.MkdirAll(dir, 0755)
 	var scs []v10Scenario
@@ -653,6 +768,8 @@ func TestVerifC10(t *testing.T) {
 	if r.Thorough() {
 		scs = append(scs, v10Scenario{name: "S6-abaco/two-requests", abaco: true, nblocks: 1, nreq: 2, delay: true})
 	}
+	r.DFS("S9-abaco-udp/nothing-sending-then-start", -1, func(x *vexp.X) vexp.Result { return v10AbacoUDP(x, false) })
+	r.DFS("S9-abaco-udp/overlapping-groups-then-start", -1, func(x *vexp.X) vexp.Result { return v10AbacoUDP(x, true) })
 	for _, sc := range scs {
 		sc := sc
 		bound := pbWide
